@@ -157,38 +157,85 @@ theorem forged_answers_change_nothing (inst : Inst) (cert : Cert) (cands : List 
   rw [Ocsp.unanswered V hmiss (fun q _ => unauthentic_no_answer V (h q.1 q.2)),
       Ocsp.unanswered V hmiss (fun q _ => Or.inl rfl)]
 
-/-- Issuer candidates are entries of the presented chains / configured responder certificates that match the
-certificate's issuer by one of the three rules of RFC 5280 §5.2.1 as the code implements them. (Every position of a
-verified chain is eligible, including the end-entity position — see the harness case `leaf-ski-equals-aki`.) -/
-theorem candidates_sound (cert : Cert) (chain : List ChainCert) (c : ChainCert) (h : c ∈ candidates cert chain) :
-    c ∈ chain ∧
+/-- Issuer candidates: every candidate is a configured trusted responder certificate or a certificate of a presented
+chain **above the end-entity position** — position 0 of a chain is eligible only when the chain consists of that one
+certificate (a self-signed certificate trusted directly is its own issuer) — and it matches the certificate's issuer by one
+of the three rules of RFC 5280 §5.2.1 as `FindCertificateIssuerCandidates` implements them. So the client certificate of an
+ordinary chain can never vouch for itself (repaired defect: harness signature `C05 end-entity-is-issuer-candidate`). -/
+theorem candidates_sound (cert : Cert) (chains : List (List ChainCert)) (trusted : List ChainCert) (c : ChainCert)
+    (h : c ∈ candidates cert (issuerPool ocspFacts chains trusted)) :
+    (c ∈ trusted ∨ ∃ ch ∈ chains, c ∈ ch.tail ∨ ch = [c]) ∧
     ((cert.aki = none ∧ c.subject = cert.issuer ∧ c.alg = cert.alg) ∨
      (∃ a sn i, cert.aki = some (some a) ∧ a.certSerial = some sn ∧ a.certIssuer = some i ∧ c.serial = sn ∧ c.issuer = i) ∨
      (∃ a kid, cert.aki = some (some a) ∧ a.certSerial = none ∧ a.keyId = some kid ∧ c.ski = some kid)) := by
-  unfold candidates at h
-  split at h
-  · rename_i haki
-    rw [List.mem_filter] at h
-    refine ⟨h.1, Or.inl ⟨haki, ?_⟩⟩
-    simpa using h.2
-  · cases h
-  · rename_i a haki
+  have hpool : ∀ x ∈ issuerPool ocspFacts chains trusted, x ∈ trusted ∨ ∃ ch ∈ chains, x ∈ ch.tail ∨ ch = [x] := by
+    intro x hx
+    rw [facts_canonical] at hx
+    simp only [issuerPool, List.mem_append, List.mem_flatten, List.mem_map] at hx
+    rcases hx with ⟨l, ⟨ch, hch, hl⟩, hxl⟩ | hx
+    · right
+      refine ⟨ch, hch, ?_⟩
+      rw [← hl] at hxl
+      simp only [trimChain, canon] at hxl
+      split at hxl
+      · left; exact hxl
+      · rename_i hlen
+        match ch, hxl, hlen with
+        | [], hxl, _ => cases hxl
+        | [y], hxl, _ =>
+          right
+          rw [List.mem_singleton] at hxl
+          rw [hxl]
+        | _ :: _ :: _, _, hlen => simp at hlen
+    · left; exact hx
+  have hmem : c ∈ issuerPool ocspFacts chains trusted ∧
+    ((cert.aki = none ∧ c.subject = cert.issuer ∧ c.alg = cert.alg) ∨
+     (∃ a sn i, cert.aki = some (some a) ∧ a.certSerial = some sn ∧ a.certIssuer = some i ∧ c.serial = sn ∧ c.issuer = i) ∨
+     (∃ a kid, cert.aki = some (some a) ∧ a.certSerial = none ∧ a.keyId = some kid ∧ c.ski = some kid)) := by
+    generalize issuerPool ocspFacts chains trusted = chain at h
+    unfold candidates at h
     split at h
-    · rename_i sn hsn
+    · rename_i haki
       rw [List.mem_filter] at h
-      refine ⟨h.1, Or.inr (Or.inl ?_)⟩
-      cases hi : a.certIssuer with
-      | none => simp [hi] at h
-      | some i =>
-        refine ⟨a, sn, i, haki, hsn, hi, ?_⟩
-        simpa [hi] using h.2
-    · rename_i hsn
+      refine ⟨h.1, Or.inl ⟨haki, ?_⟩⟩
+      simpa using h.2
+    · cases h
+    · rename_i a haki
       split at h
-      · rename_i kid hkid
+      · rename_i sn hsn
         rw [List.mem_filter] at h
-        refine ⟨h.1, Or.inr (Or.inr ⟨a, kid, haki, hsn, hkid, ?_⟩)⟩
-        simpa using h.2
-      · cases h
+        refine ⟨h.1, Or.inr (Or.inl ?_)⟩
+        cases hi : a.certIssuer with
+        | none => simp [hi] at h
+        | some i =>
+          refine ⟨a, sn, i, haki, hsn, hi, ?_⟩
+          simpa [hi] using h.2
+      · rename_i hsn
+        split at h
+        · rename_i kid hkid
+          rw [List.mem_filter] at h
+          refine ⟨h.1, Or.inr (Or.inr ⟨a, kid, haki, hsn, hkid, ?_⟩)⟩
+          simpa using h.2
+        · cases h
+  exact ⟨hpool c hmem.1, hmem.2⟩
+
+/-- The repaired defect, as an instance: chain [leaf, CA] where the leaf's subject key id equals the key id in its own
+AKI. Only the CA is a candidate, and a `good` signed with the leaf's own key is no answer. -/
+theorem end_entity_not_candidate_example :
+    let leaf : ChainCert := { certId := 2, key := 22, subject := "CN=leaf".toList, issuer := "CN=ca".toList, serial := 77,
+                              ski := some [1, 2, 3], alg := 3 }
+    let ca : ChainCert := { certId := 1, key := 11, subject := "CN=ca".toList, issuer := "CN=ca".toList, serial := 1,
+                            ski := some [1, 2, 3], alg := 3 }
+    let cert : Cert := { issuer := "CN=ca".toList, subject := "CN=leaf".toList, serial := 77, servers := [], alg := 3,
+                         aki := some (some { keyId := some [1, 2, 3], certSerial := none, certIssuer := none }) }
+    let r : Resp := { respStatus := 0, typeBasic := true, basicParses := true,
+                      singles := [{ serial := 77, status := .good, nextUpdate := none, criticalExt := false, hashKnown := true }],
+                      responderIdOk := true, embedded := none, signed := 22 }
+    candidates cert (issuerPool ocspFacts [[leaf, ca]] []) = [ca] ∧
+    parseOcsp ocspFacts (fun k s => k == s) cert ((candidates cert (issuerPool ocspFacts [[leaf, ca]] [])).map ChainCert.cand)
+      (.resp r) = none ∧
+    candidates cert (issuerPool ocspFacts [[leaf]] []) = [leaf] := by
+  decide
 
 /-! Non-vacuity. -/
 section Example
